@@ -150,7 +150,44 @@ def r12(orig, rule):
     return s[:m.start()] + '(match %s { Some(%s) => %s, None => %s })' % (x, p, e, d) + s[m.end():]
 
 
+def rb(orig, rule):
+    # struct/enum header: drop the trait bounds of the generic parameters (the bound traits are not available to the verifier)
+    toks = texts(lex(orig)[0])
+    out = []
+    depth = 0
+    skipping = False
+    for t in toks:
+        if t == '<':
+            depth += 1
+            if skipping:
+                continue
+        elif t == '>':
+            depth -= 1
+            if skipping and depth >= 1:
+                continue
+            if depth == 0:
+                skipping = False
+        elif t == '>>':
+            depth -= 2
+            if depth <= 0:
+                skipping = False
+                out.append('>')
+                continue
+        if depth == 1 and t == ':':
+            skipping = True
+            continue
+        if depth == 1 and t == ',':
+            skipping = False
+        if skipping:
+            continue
+        out.append(t)
+    if out == toks:
+        raise NoMatch('no bounds to drop')
+    return ' '.join(out)
+
+
 GENERATORS = {
+    'RB': rb,
     'R1': r1, 'R2': r2, 'R3': r3, 'R4': r4, 'R9': r9, 'R9t': r9t, 'R10': r10, 'R10t': r10t, 'R11': r11,
     'R14': r14, 'R15': r15, 'R15t': r15t, 'R17': r17,
 }
